@@ -93,7 +93,12 @@ static void classify_crash(int st, const char *err_path, const char *cls, char *
 }
 
 /* ---- round trip -------------------------------------------------------- */
-struct rec { char fn[64]; uint32_t line, tags; uint8_t prio; char text[600]; long t0_ms, t1_ms; int overlong; };
+struct rec { char fn[64]; uint32_t line, tags; uint8_t prio; char text[600]; long t0_ms, t1_ms, ts_ms; int overlong; };
+/* the time stamp the library took for a message is handed to every target: a custom target notes it, so that the printed
+ * one can be compared exactly instead of against the harness' own clock readings */
+static struct timespec cap_ts; static int cap_seen;
+static void caplogger(int32_t t, struct qb_log_callsite *cs, struct timespec *ts, const char *msg) { (void)t; (void)cs; (void)msg; cap_ts = *ts; cap_seen = 1; }
+static long n_ts_exact, n_ts_unjudged;
 #define MAXREC 6000
 static struct rec R[MAXREC]; static int nR;
 static const char *PRIO[] = { "emerg", "alert", "crit", "error", "warning", "notice", "info", "debug", "trace" };
@@ -116,7 +121,7 @@ static void log_one(vprng_t *r)
 	for (int i = 0; i < sl; i++) s1[i] = (char)('A' + vp_u(r, 50)); s1[sl] = 0;
 	for (int i = 0; i < sl; i++) if (s1[i] == '%' || s1[i] == '\\') s1[i] = '_';
 	int num = (int)vp_u(r, 2000000) - 1000000; unsigned long long big = vp_next(r);
-	x->t0_ms = now_ms_of_day();
+	x->t0_ms = now_ms_of_day(); cap_seen = 0;
 	char full[3000];
 	switch (vp_u(r, 6)) {
 	case 0: qb_log_from_external_source(x->fn, "bb.c", "rec %d: %s", x->prio, x->line, x->tags, num, s1); snprintf(full, sizeof full, "rec %d: %s", num, s1); break;
@@ -127,6 +132,7 @@ static void log_one(vprng_t *r)
 	default: qb_log_from_external_source(x->fn, "bb.c", "%zu %ld %s", x->prio, x->line, x->tags, (size_t)big, (long)num, s1); snprintf(full, sizeof full, "%zu %ld %s", (size_t)big, (long)num, s1); break;
 	}
 	x->t1_ms = now_ms_of_day();
+	x->ts_ms = cap_seen ? (long)((cap_ts.tv_sec % 86400) * 1000 + cap_ts.tv_nsec / 1000000) : -1;
 	/* what the property promises: the printf text while it fits the line limit, else the fixed notice */
 	x->overlong = strlen(full) >= 450;     /* near / over the 512 limit incl. the format and raw arguments: not judged for text */
 	snprintf(x->text, sizeof x->text, "%s", full);
@@ -148,6 +154,8 @@ static void roundtrip_case(long kase)
 	qb_log_ctl(QB_LOG_BLACKBOX, QB_LOG_CONF_SIZE, size);
 	int rc = qb_log_ctl(QB_LOG_BLACKBOX, QB_LOG_CONF_ENABLED, QB_TRUE);
 	if (rc != 0) { vp_violation("bb:enable-failed", "size %d rc %d", size, rc); qb_log_fini(); return; }
+	int cap = qb_log_custom_open(caplogger, NULL, NULL, NULL);
+	if (cap >= 0) { qb_log_filter_ctl(cap, QB_LOG_FILTER_ADD, QB_LOG_FILTER_FILE, "bb.c", LOG_TRACE); qb_log_ctl(cap, QB_LOG_CONF_ENABLED, QB_TRUE); }
 	int ndumps = 1 + (int)vp_u(&r, 3);
 	char path[200], out[200], err[200];
 	snprintf(path, sizeof path, "%s/rt.fdata", workdir); snprintf(out, sizeof out, "%s/rt.out", workdir); snprintf(err, sizeof err, "%s/rt.err", workdir);
@@ -195,8 +203,9 @@ static void roundtrip_case(long kase)
 				vp_violation("bb:record-fields-differ", "record #%d logged %s %s(%u):%u printed [%.200s] (gap or reorder in the dump?)", idx, PRIO[x->prio], x->fn, x->line, x->tags, line); ok = 0; break;
 			}
 			long tms = ((long)hh * 3600 + mm * 60 + ss) * 1000 + ms;
-			if (!(tms + 25 >= x->t0_ms && tms <= x->t1_ms + 2) && !(x->t0_ms > x->t1_ms)) { /* the library stamps with the coarse clock (lags up to a tick) */
-				vp_violation("bb:timestamp-differs", "record #%d logged between %ld and %ld ms of day, printed %ld", idx, x->t0_ms, x->t1_ms, tms); ok = 0; break;
+			if (x->ts_ms < 0) n_ts_unjudged++;
+			else if (++n_ts_exact && tms != x->ts_ms) {
+				vp_violation("bb:timestamp-differs", "record #%d stamped %ld ms of day by the library (harness clock before/after the call: %ld/%ld), printed %ld", idx, x->ts_ms, x->t0_ms, x->t1_ms, tms); ok = 0; break;
 			}
 			if (!x->overlong && strcmp(msg, x->text) != 0) {
 				vp_violation("bb:message-text-differs", "record #%d logged [%.200s] printed [%.200s]", idx, x->text, msg); ok = 0; break;
@@ -361,6 +370,7 @@ int main(int argc, char **argv)
 	vp_count("records_logged", n_logged); vp_count("dumps_written_and_printed", n_dumps); vp_count("records_printed_and_compared", n_printed_records);
 	vp_count("dumps_that_had_wrapped", n_wrapped_dumps); vp_count("files_printed", n_files); vp_count("print_returned_ok", n_rc_ok); vp_count("print_returned_error", n_rc_err);
 	vp_count("truncations", n_truncs); vp_count("field_corruptions", n_field); vp_count("random_corruptions", n_random); vp_count("non_dumps", n_arbitrary);
+	vp_count("timestamps_compared_exactly", n_ts_exact); vp_count("timestamps_not_judged", n_ts_unjudged);
 	vp_count("private_dev_shm", private_shm);
 	vp_finish();
 	return 0;
